@@ -152,6 +152,17 @@ def direct_case(case, counters, viol, nontrivial):
         src = SMCSamples(x=xp.asarray(x), log_likelihood=xp.asarray(ll), log_prior=xp.asarray(lp), log_q=xp.asarray(lq), beta=b0, xp=xp, dtype=dt)
         proxy = RngProxy(int(g.integers(2**31)))
         where = f"direct xp={case['xp']} {dt} N={n} spread={spread:.3g} beta {b0:.6g}->{b1:.6g} n_samples={n_req}"
+        if g.random() < 0.3:
+            # state carried on the object: look-ahead weight evaluations (as the adaptive schedule does), then a field is
+            # re-evaluated and reassigned (the library's own idiom in mutate), then the population is resampled
+            src.log_weights(min(1.0, b0 + 0.5 * (b1 - b0)))
+            src.log_evidence_ratio(b1)
+            ll2 = np.where(g.random(n) < 0.4, ll + g.normal(0, 3, n).astype(dt), ll).astype(dt)
+            if g.random() < 0.5 and n > 3:
+                ll2 = np.where(np.arange(n) % 2 == 1, -np.inf, ll2).astype(dt)
+            src.log_likelihood = xp.asarray(ll2)
+            where += " [field reassigned after look-ahead]"
+            counters["reassigned_before_resample"] += 1
         out = src.resample(b1, n_samples=n_req, rng=proxy)
         counters["direct_resamples"] += 1
         sig = f"{int(np.log10(n))}|{int(np.log10(spread)) if spread > 0 else 'flat'}|{int(np.log10(b1-b0))}|{'N' if n_req is None else ('1' if n_req == 1 else ('half' if n_req < n else '3N'))}|{case['xp']}|{dt}"
